@@ -29,7 +29,7 @@ from ..mon import lines, sched
 ID = 'C10'
 ANCHORS = ['mido.ports', 'mido.backends._parser_queue']
 LEVEL = 'exploration'
-RULE = ('14 programs of 3-4 threads (1-2 senders, 1-2 receivers) over WirePort loopback, EchoPort, '
+RULE = ('18 programs of 3-4 threads (1-2 senders, 1-2 receivers) over WirePort loopback, EchoPort, '
         'IOPort(WireIn, WireOut), MultiPort fan-out and fan-in, two iter_pending consumers, '
         'ParserQueue with two producers and with two pollers, a SocketPort pair over socketpair(); every yield point is a line of mido/ports.py, parser.py, tokenizer.py, '
         'backends/_parser_queue.py or of the device double, a lock operation or a sleep(). All '
@@ -37,7 +37,9 @@ RULE = ('14 programs of 3-4 threads (1-2 senders, 1-2 receivers) over WirePort l
         'are enumerated (quick; <= 2 on the candidate lines of ports.py/_parser_queue.py/doubles in '
         'thorough) + seeded random-walk and PCT(d=3) schedules. A schedule is distinct by its '
         'run-length encoded thread trace; non-trivial when it contains at least one context '
-        'switch inside an operation (every schedule with a preemption is)')
+        'switch inside an operation (every schedule with a preemption is). Besides: call-by-call interleavings '
+        'of senders with a receiver that mixes receive/poll/iter_pending (seeded sequences), and real threads blocked '
+        'in ParserQueue.get() with seeded pauses between the statements of get()')
 ASSUMPTIONS = [
     'pre-emption happens at line boundaries of the monitored files (CPython may also switch inside a line): for backends/_parser_queue.py one program additionally yields at every bytecode instruction (sys.monitoring INSTRUCTION events); messages/*.py is not instrumented, so Message.copy() is atomic here',
     'ports lock with the lock object they create themselves: while a schedule runs, RLock() inside mido.ports and ParserQueue returns the real RLock wrapped in a scheduler-aware object (same semantics, incl. re-entrancy and try-acquire); the harness never reads or replaces port._lock',
